@@ -1,42 +1,4 @@
-// C04 / C06: what the DFA getters (the functions the table builders and the emitters read the
-// automaton through) return, stated over the automaton's own fields.
-verus! {
-
-/// state q has a transition on the symbol id
-spec fn used(d: DFA, q: u32, id: InpId) -> bool {
-    d.transitions@.contains_key(q) && d.transitions@[q].contains_key(id)
-}
-
-/// every symbol id of the table is an index of the symbol pool
-spec fn dfa_wf(d: DFA) -> bool {
-    forall|q: u32, id: InpId| #[trigger] used(d, q, id) ==> 0 <= ix_of(id) < d.inputs@.len()
-}
-
-/// every within-word symbol of the pool names an automaton of the automaton pool
-spec fn subs_wf(d: DFA) -> bool {
-    forall|i: int| 0 <= i < d.inputs@.len() ==> ((#[trigger] d.inputs@[i]) is Subword ==> 0 <= dfa_ix(d.inputs@[i]->subdfa) < d.subdfas.store@.len())
-}
-
-/// x labels some transition
-spec fn on_edge(d: DFA, x: Inp) -> bool {
-    exists|q: u32, id: InpId| #[trigger] used(d, q, id) && 0 <= ix_of(id) < d.inputs@.len() && d.inputs@[ix_of(id)] == x
-}
-
-/// s is the within-word automaton of some transition
-spec fn is_subword_of(d: DFA, s: DFA) -> bool {
-    exists|x: Inp| #[trigger] on_edge(d, x) && x is Subword && 0 <= dfa_ix(x->subdfa) < d.subdfas.store@.len() && d.subdfas.store@[dfa_ix(x->subdfa)] == s
-}
-
-spec fn has_command(d: DFA) -> bool { exists|x: Inp| #[trigger] on_edge(d, x) && x is Command }
-spec fn has_compadd(d: DFA) -> bool { exists|x: Inp| #[trigger] on_edge(d, x) && x is Compadd }
-spec fn has_star(d: DFA) -> bool { exists|x: Inp| #[trigger] on_edge(d, x) && x is Star }
-
-/// the within-word automata are well-formed too (one level: they hold no further automata)
-spec fn subs_ok(d: DFA) -> bool {
-    forall|s: DFA| #[trigger] is_subword_of(d, s) ==> dfa_wf(s)
-}
-
-} // verus!
+// C04 / C06: what the DFA getters return (the base predicates are in wf.rs, shared with unit c02e)
 verus! {
 
 /// the tuple get_literal_transitions_from reports for the transition (from, id)
@@ -477,4 +439,411 @@ proof fn lemma_sub_all(d: DFA, idm: Map<DFAId, usize>, trs: Seq<(u32, InpId, u32
     }
 }
 
+} // verus!
+verus! {
+
+/// the `||` level a symbol carries (none for the any-word symbol)
+spec fn level_of(x: Inp) -> Option<usize> {
+    match x {
+        Inp::Literal { literal, description, fallback_level } => Some(fallback_level),
+        Inp::Subword { subdfa, fallback_level } => Some(fallback_level),
+        Inp::Command { cmd, fallback_level } => Some(fallback_level),
+        Inp::Compadd { cmd, fallback_level } => Some(fallback_level),
+        Inp::Star => None,
+    }
+}
+
+/// m is the greatest level among the symbols labelling transitions
+spec fn is_max_level(d: DFA, m: usize) -> bool {
+    (exists|x: Inp| #[trigger] on_edge(d, x) && level_of(x) == Some(m))
+    && (forall|x: Inp| #[trigger] on_edge(d, x) && level_of(x) is Some ==> level_of(x)->0 <= m)
+}
+
+} // verus!
+verus! {
+
+// ---- match tables: state -> (literal id -> target) ----
+
+/// some literal transition of q has the id lid and leads to `to`
+spec fn lit_cell(d: DFA, idm: Map<(Ustr, Ustr), u32>, q: u32, lid: u32, to: u32) -> bool {
+    exists|id: InpId, t: (Ustr, Ustr, u32)| #[trigger] lit_entry(d, q, id, t) && idm.contains_key((t.0, t.1)) && idm[(t.0, t.1)] == lid && t.2 == to
+}
+
+/// among the first n tuples, one has the id lid and leads to `to`
+spec fn cell_src(src: Seq<(Ustr, Ustr, u32)>, idm: Map<(Ustr, Ustr), u32>, n: int, lid: u32, to: u32) -> bool {
+    exists|m: int| 0 <= m < n && m < src.len() && #[trigger] src_hit(src[m], idm, lid, to)
+}
+
+spec fn src_hit(t: (Ustr, Ustr, u32), idm: Map<(Ustr, Ustr), u32>, lid: u32, to: u32) -> bool {
+    idm.contains_key((t.0, t.1)) && idm[(t.0, t.1)] == lid && t.2 == to
+}
+
+/// every literal transition (as get_literal_transitions_from reports it) is in the literal table
+spec fn lits_known(d: DFA, idm: Map<(Ustr, Ustr), u32>) -> bool {
+    forall|q: u32, id: InpId, t: (Ustr, Ustr, u32)| #[trigger] lit_entry(d, q, id, t) ==> idm.contains_key((t.0, t.1))
+}
+
+/// the row built from the tuples of one state
+spec fn row_of(row: Map<u32, u32>, src: Seq<(Ustr, Ustr, u32)>, idm: Map<(Ustr, Ustr), u32>, n: int) -> bool {
+    (forall|lid: u32| #[trigger] row.contains_key(lid) ==> cell_src(src, idm, n, lid, row[lid]))
+    && (forall|lid: u32, to: u32| #[trigger] cell_src(src, idm, n, lid, to) ==> row.contains_key(lid))
+}
+
+proof fn lemma_cell_src_step(src: Seq<(Ustr, Ustr, u32)>, idm: Map<(Ustr, Ustr), u32>, n: int, lid: u32, to: u32)
+    requires 0 <= n < src.len()
+    ensures cell_src(src, idm, n + 1, lid, to) == (cell_src(src, idm, n, lid, to) || src_hit(src[n], idm, lid, to))
+{
+    if cell_src(src, idm, n + 1, lid, to) {
+        let m = choose|m: int| 0 <= m < n + 1 && m < src.len() && #[trigger] src_hit(src[m], idm, lid, to);
+        if m < n { assert(cell_src(src, idm, n, lid, to)); }
+    }
+    if cell_src(src, idm, n, lid, to) {
+        let m = choose|m: int| 0 <= m < n && m < src.len() && #[trigger] src_hit(src[m], idm, lid, to);
+        assert(cell_src(src, idm, n + 1, lid, to));
+    }
+    if src_hit(src[n], idm, lid, to) { assert(cell_src(src, idm, n + 1, lid, to)); }
+}
+
+/// the tuples of one state, all scanned, are its literal cells
+proof fn lemma_cell_src_all(d: DFA, idm: Map<(Ustr, Ustr), u32>, q: u32, src: Seq<(Ustr, Ustr, u32)>, lid: u32, to: u32)
+    requires forall|t: (Ustr, Ustr, u32)| src.contains(t) <==> exists|id: InpId| #[trigger] lit_entry(d, q, id, t)
+    ensures cell_src(src, idm, src.len() as int, lid, to) == lit_cell(d, idm, q, lid, to)
+{
+    if cell_src(src, idm, src.len() as int, lid, to) {
+        let m = choose|m: int| 0 <= m < src.len() && m < src.len() && #[trigger] src_hit(src[m], idm, lid, to);
+        assert(src.contains(src[m]));
+        let id = choose|id: InpId| #[trigger] lit_entry(d, q, id, src[m]);
+        assert(lit_entry(d, q, id, src[m]) && idm.contains_key((src[m].0, src[m].1)));
+    }
+    if lit_cell(d, idm, q, lid, to) {
+        let (id, t) = choose|id: InpId, t: (Ustr, Ustr, u32)| #[trigger] lit_entry(d, q, id, t) && idm.contains_key((t.0, t.1)) && idm[(t.0, t.1)] == lid && t.2 == to;
+        assert(src.contains(t));
+        let m = choose|m: int| 0 <= m < src.len() && src[m] == t;
+        assert(src_hit(src[m], idm, lid, to));
+    }
+}
+
+/// the table so far: rows for the states scanned, each the cells of that state
+spec fn table_upto(d: DFA, idm: Map<(Ustr, Ustr), u32>, tab: Map<u32, BTreeMap<u32, u32>>, states: Seq<u32>, n: int) -> bool {
+    (forall|q: u32, lid: u32| #[trigger] tab_has(tab, q, lid) ==> in_first(states, n, q) && lit_cell(d, idm, q, lid, tab[q]@[lid]))
+    && (forall|q: u32, lid: u32, to: u32| in_first(states, n, q) && #[trigger] lit_cell(d, idm, q, lid, to) ==> tab_has(tab, q, lid))
+    && (forall|q: u32| #[trigger] tab.contains_key(q) ==> exists|lid: u32| tab_has(tab, q, lid))
+}
+
+spec fn tab_has(tab: Map<u32, BTreeMap<u32, u32>>, q: u32, lid: u32) -> bool { tab.contains_key(q) && tab[q]@.contains_key(lid) }
+
+spec fn in_first(states: Seq<u32>, n: int, q: u32) -> bool { exists|m: int| 0 <= m < n && m < states.len() && #[trigger] states[m] == q }
+
+} // verus!
+verus! {
+
+spec fn csrc_hit(t: (Ustr, u32), tab: Seq<Ustr>, cid: u32, to: u32) -> bool { cmd_key(tab, t.0, cid) && t.1 == to }
+
+// ---- match tables: state -> (cmdt id -> target) ----
+spec fn cmdt_cell(d: DFA, tab: Seq<Ustr>, q: u32, cid: u32, to: u32) -> bool {
+    exists|id: InpId, t: (Ustr, u32)| #[trigger] cmd_entry(d, q, id, t) && cmd_key(tab, t.0, cid) && t.1 == to
+}
+
+spec fn cmdt_src(src: Seq<(Ustr, u32)>, tab: Seq<Ustr>, n: int, cid: u32, to: u32) -> bool {
+    exists|m: int| 0 <= m < n && m < src.len() && #[trigger] csrc_hit(src[m], tab, cid, to)
+}
+
+spec fn cmdts_known(d: DFA, tab: Seq<Ustr>) -> bool {
+    forall|q: u32, id: InpId, t: (Ustr, u32)| #[trigger] cmd_entry(d, q, id, t) ==> has_key(tab, t.0)
+}
+
+spec fn cmdt_row_of(row: Map<u32, u32>, src: Seq<(Ustr, u32)>, tab: Seq<Ustr>, n: int) -> bool {
+    (forall|cid: u32| #[trigger] row.contains_key(cid) ==> cmdt_src(src, tab, n, cid, row[cid]))
+    && (forall|cid: u32, to: u32| #[trigger] cmdt_src(src, tab, n, cid, to) ==> row.contains_key(cid))
+}
+
+proof fn lemma_cmdt_src_step(src: Seq<(Ustr, u32)>, tab: Seq<Ustr>, n: int, cid: u32, to: u32)
+    requires 0 <= n < src.len()
+    ensures cmdt_src(src, tab, n + 1, cid, to) == (cmdt_src(src, tab, n, cid, to) || csrc_hit(src[n], tab, cid, to))
+{
+    if cmdt_src(src, tab, n + 1, cid, to) {
+        let m = choose|m: int| 0 <= m < n + 1 && m < src.len() && #[trigger] csrc_hit(src[m], tab, cid, to);
+        if m < n { assert(cmdt_src(src, tab, n, cid, to)); }
+    }
+    if cmdt_src(src, tab, n, cid, to) {
+        let m = choose|m: int| 0 <= m < n && m < src.len() && #[trigger] csrc_hit(src[m], tab, cid, to);
+        assert(cmdt_src(src, tab, n + 1, cid, to));
+    }
+    if csrc_hit(src[n], tab, cid, to) { assert(cmdt_src(src, tab, n + 1, cid, to)); }
+}
+
+proof fn lemma_cmdt_src_all(d: DFA, tab: Seq<Ustr>, q: u32, src: Seq<(Ustr, u32)>, cid: u32, to: u32)
+    requires forall|t: (Ustr, u32)| src.contains(t) <==> exists|id: InpId| #[trigger] cmd_entry(d, q, id, t)
+    ensures cmdt_src(src, tab, src.len() as int, cid, to) == cmdt_cell(d, tab, q, cid, to)
+{
+    if cmdt_src(src, tab, src.len() as int, cid, to) {
+        let m = choose|m: int| 0 <= m < src.len() && m < src.len() && #[trigger] csrc_hit(src[m], tab, cid, to);
+        assert(src.contains(src[m]));
+        let id = choose|id: InpId| #[trigger] cmd_entry(d, q, id, src[m]);
+        assert(cmd_entry(d, q, id, src[m]));
+    }
+    if cmdt_cell(d, tab, q, cid, to) {
+        let (id, t) = choose|id: InpId, t: (Ustr, u32)| #[trigger] cmd_entry(d, q, id, t) && cmd_key(tab, t.0, cid) && t.1 == to;
+        assert(src.contains(t));
+        let m = choose|m: int| 0 <= m < src.len() && src[m] == t;
+        assert(csrc_hit(src[m], tab, cid, to));
+    }
+}
+
+spec fn cmdt_table_upto(d: DFA, tab: Seq<Ustr>, tb: Map<u32, BTreeMap<u32, u32>>, states: Seq<u32>, n: int) -> bool {
+    (forall|q: u32, cid: u32| #[trigger] tab_has(tb, q, cid) ==> in_first(states, n, q) && cmdt_cell(d, tab, q, cid, tb[q]@[cid]))
+    && (forall|q: u32, cid: u32, to: u32| in_first(states, n, q) && #[trigger] cmdt_cell(d, tab, q, cid, to) ==> tab_has(tb, q, cid))
+    && (forall|q: u32| #[trigger] tb.contains_key(q) ==> exists|cid: u32| tab_has(tb, q, cid))
+}
+
+// ---- match tables: state -> (cpdt id -> target) ----
+spec fn cpdt_cell(d: DFA, tab: Seq<Ustr>, q: u32, cid: u32, to: u32) -> bool {
+    exists|id: InpId, t: (Ustr, u32)| #[trigger] compadd_entry(d, q, id, t) && cmd_key(tab, t.0, cid) && t.1 == to
+}
+
+spec fn cpdt_src(src: Seq<(Ustr, u32)>, tab: Seq<Ustr>, n: int, cid: u32, to: u32) -> bool {
+    exists|m: int| 0 <= m < n && m < src.len() && #[trigger] csrc_hit(src[m], tab, cid, to)
+}
+
+spec fn cpdts_known(d: DFA, tab: Seq<Ustr>) -> bool {
+    forall|q: u32, id: InpId, t: (Ustr, u32)| #[trigger] compadd_entry(d, q, id, t) ==> has_key(tab, t.0)
+}
+
+spec fn cpdt_row_of(row: Map<u32, u32>, src: Seq<(Ustr, u32)>, tab: Seq<Ustr>, n: int) -> bool {
+    (forall|cid: u32| #[trigger] row.contains_key(cid) ==> cpdt_src(src, tab, n, cid, row[cid]))
+    && (forall|cid: u32, to: u32| #[trigger] cpdt_src(src, tab, n, cid, to) ==> row.contains_key(cid))
+}
+
+proof fn lemma_cpdt_src_step(src: Seq<(Ustr, u32)>, tab: Seq<Ustr>, n: int, cid: u32, to: u32)
+    requires 0 <= n < src.len()
+    ensures cpdt_src(src, tab, n + 1, cid, to) == (cpdt_src(src, tab, n, cid, to) || csrc_hit(src[n], tab, cid, to))
+{
+    if cpdt_src(src, tab, n + 1, cid, to) {
+        let m = choose|m: int| 0 <= m < n + 1 && m < src.len() && #[trigger] csrc_hit(src[m], tab, cid, to);
+        if m < n { assert(cpdt_src(src, tab, n, cid, to)); }
+    }
+    if cpdt_src(src, tab, n, cid, to) {
+        let m = choose|m: int| 0 <= m < n && m < src.len() && #[trigger] csrc_hit(src[m], tab, cid, to);
+        assert(cpdt_src(src, tab, n + 1, cid, to));
+    }
+    if csrc_hit(src[n], tab, cid, to) { assert(cpdt_src(src, tab, n + 1, cid, to)); }
+}
+
+proof fn lemma_cpdt_src_all(d: DFA, tab: Seq<Ustr>, q: u32, src: Seq<(Ustr, u32)>, cid: u32, to: u32)
+    requires forall|t: (Ustr, u32)| src.contains(t) <==> exists|id: InpId| #[trigger] compadd_entry(d, q, id, t)
+    ensures cpdt_src(src, tab, src.len() as int, cid, to) == cpdt_cell(d, tab, q, cid, to)
+{
+    if cpdt_src(src, tab, src.len() as int, cid, to) {
+        let m = choose|m: int| 0 <= m < src.len() && m < src.len() && #[trigger] csrc_hit(src[m], tab, cid, to);
+        assert(src.contains(src[m]));
+        let id = choose|id: InpId| #[trigger] compadd_entry(d, q, id, src[m]);
+        assert(compadd_entry(d, q, id, src[m]));
+    }
+    if cpdt_cell(d, tab, q, cid, to) {
+        let (id, t) = choose|id: InpId, t: (Ustr, u32)| #[trigger] compadd_entry(d, q, id, t) && cmd_key(tab, t.0, cid) && t.1 == to;
+        assert(src.contains(t));
+        let m = choose|m: int| 0 <= m < src.len() && src[m] == t;
+        assert(csrc_hit(src[m], tab, cid, to));
+    }
+}
+
+spec fn cpdt_table_upto(d: DFA, tab: Seq<Ustr>, tb: Map<u32, BTreeMap<u32, u32>>, states: Seq<u32>, n: int) -> bool {
+    (forall|q: u32, cid: u32| #[trigger] tab_has(tb, q, cid) ==> in_first(states, n, q) && cpdt_cell(d, tab, q, cid, tb[q]@[cid]))
+    && (forall|q: u32, cid: u32, to: u32| in_first(states, n, q) && #[trigger] cpdt_cell(d, tab, q, cid, to) ==> tab_has(tb, q, cid))
+    && (forall|q: u32| #[trigger] tb.contains_key(q) ==> exists|cid: u32| tab_has(tb, q, cid))
+}
+
+} // verus!
+verus! {
+
+// ---- tables.rs: the tables handed to the printers ----
+
+spec fn listed(all: Seq<(u32, Ustr, Ustr)>, lit: Ustr, descr: Ustr) -> bool {
+    exists|k: int| 0 <= k < all.len() && (#[trigger] all[k]).1 == lit && all[k].2 == descr
+}
+
+spec fn star_tr(d: DFA, p: (u32, u32)) -> bool {
+    exists|id: InpId| #[trigger] used(d, p.0, id) && 0 <= ix_of(id) < d.inputs@.len() && d.inputs@[ix_of(id)] is Star && d.transitions@[p.0][id] == p.1
+}
+
+/// the (text, description) -> id map collected from the literal list (later entries win)
+spec fn idm_of(all: Seq<(u32, Ustr, Ustr)>) -> Map<(Ustr, Ustr), u32>
+    decreases all.len()
+{
+    if all.len() == 0 { Map::empty() } else { idm_of(all.drop_last()).insert((all.last().1, all.last().2), all.last().0) }
+}
+
+proof fn lemma_idm_of_keys(all: Seq<(u32, Ustr, Ustr)>, lit: Ustr, descr: Ustr)
+    ensures idm_of(all).contains_key((lit, descr)) == listed(all, lit, descr)
+    decreases all.len()
+{
+    if all.len() > 0 {
+        let init = all.drop_last();
+        lemma_idm_of_keys(init, lit, descr);
+        if listed(all, lit, descr) {
+            let k = choose|k: int| 0 <= k < all.len() && (#[trigger] all[k]).1 == lit && all[k].2 == descr;
+            if k < all.len() - 1 { assert(init[k] == all[k]); assert(listed(init, lit, descr)); }
+        }
+        if listed(init, lit, descr) {
+            let k = choose|k: int| 0 <= k < init.len() && (#[trigger] init[k]).1 == lit && init[k].2 == descr;
+            assert(all[k] == init[k]);
+        }
+        if all.last().1 == lit && all.last().2 == descr { assert(all[all.len() - 1] == all.last()); }
+    }
+}
+
+/// the whole table set is what the getters prescribe for this automaton, the given command table and index base
+spec fn tables_ok(d: DFA, cmds: Seq<Ustr>, needs_commands: bool, needs_compadds: bool, needs_star: bool, t: LookupTables) -> bool {
+    let idm = idm_of(t.all_literals@);
+    let max = t.completion_transitions.max_fallback_level;
+    lits_known(d, idm)
+    && match_lit_ok(d, idm, t.match_transitions.literal@)
+    && (t.match_transitions.command is Some <==> needs_commands)
+    && (t.match_transitions.compadd is Some <==> needs_compadds)
+    && (t.match_transitions.star is Some <==> needs_star)
+    && (needs_star ==> forall|p: (u32, u32)| (t.match_transitions.star->0)@.contains(p) <==> star_tr(d, p))
+    && t.completion_transitions.literal@.len() == max + 1
+    && (forall|l: int, q: u32, lid: u32| 0 <= l <= max ==> (#[trigger] has(t.completion_transitions.literal@[l], q, lid) <==> lit_compl(d, idm, l, q, lid)))
+    && (t.completion_transitions.command is Some <==> needs_commands)
+    && (t.completion_transitions.compadd is Some <==> needs_compadds)
+    && (needs_commands ==> (t.completion_transitions.command->0)@.len() == max + 1
+        && (forall|l: int, q: u32, cid: u32| 0 <= l <= max ==> (#[trigger] has((t.completion_transitions.command->0)@[l], q, cid) <==> cmd_compl(d, cmds, l, q, cid))))
+    && (needs_compadds ==> (t.completion_transitions.compadd->0)@.len() == max + 1
+        && (forall|l: int, q: u32, cid: usize| 0 <= l <= max ==> (#[trigger] hasv((t.completion_transitions.compadd->0)@[l], q, cid) <==> compadd_compl(d, cmds, l, q, cid))))
+}
+
+/// literal match table: exactly the literal cells of every state of the automaton
+spec fn match_lit_ok(d: DFA, idm: Map<(Ustr, Ustr), u32>, tb: Map<u32, BTreeMap<u32, u32>>) -> bool {
+    (forall|q: u32, lid: u32| #[trigger] tab_has(tb, q, lid) ==> lit_cell(d, idm, q, lid, tb[q]@[lid]))
+    && (forall|q: u32, lid: u32, to: u32| #[trigger] lit_cell(d, idm, q, lid, to) ==> tab_has(tb, q, lid))
+}
+
+} // verus!
+verus! {
+
+spec fn match_cmd_ok(d: DFA, cmds: Seq<Ustr>, tb: Map<u32, BTreeMap<u32, u32>>) -> bool {
+    (forall|q: u32, cid: u32| #[trigger] tab_has(tb, q, cid) ==> cmdt_cell(d, cmds, q, cid, tb[q]@[cid]))
+    && (forall|q: u32, cid: u32, to: u32| #[trigger] cmdt_cell(d, cmds, q, cid, to) ==> tab_has(tb, q, cid))
+}
+
+spec fn match_cpd_ok(d: DFA, cmds: Seq<Ustr>, tb: Map<u32, BTreeMap<u32, u32>>) -> bool {
+    (forall|q: u32, cid: u32| #[trigger] tab_has(tb, q, cid) ==> cpdt_cell(d, cmds, q, cid, tb[q]@[cid]))
+    && (forall|q: u32, cid: u32, to: u32| #[trigger] cpdt_cell(d, cmds, q, cid, to) ==> tab_has(tb, q, cid))
+}
+
+/// every command / compadd on a transition is in the command table
+spec fn cmds_all_known(d: DFA, cmds: Seq<Ustr>) -> bool {
+    forall|x: Inp, c: Ustr| #[trigger] on_edge(d, x) && #[trigger] is_cmd(x, c) ==> has_key(cmds, c)
+}
+
+spec fn levels_small(d: DFA) -> bool {
+    forall|x: Inp| #[trigger] on_edge(d, x) && level_of(x) is Some ==> level_of(x)->0 < usize::MAX
+}
+
+/// a source state of a transition is one of get_all_states' states
+proof fn lemma_source_is_end(d: DFA, q: u32, id: InpId)
+    requires used(d, q, id)
+    ensures is_end(d, q)
+{
+}
+
+proof fn lemma_empty_ustr_is_empty()
+    ensures empty_ustr()@.len() == 0
+{
+    axiom_empty_ustr_exists();
+}
+
+/// the literal list covers the literal transitions: so does the map collected from it
+proof fn lemma_lits_known(d: DFA, all: Seq<(u32, Ustr, Ustr)>)
+    requires forall|q: u32, id: InpId, t: (Ustr, Ustr, u32)| #[trigger] lit_entry(d, q, id, t) ==> listed(all, t.0, t.1)
+    ensures lits_known(d, idm_of(all))
+{
+    assert forall|q: u32, id: InpId, t: (Ustr, Ustr, u32)| #[trigger] lit_entry(d, q, id, t) implies idm_of(all).contains_key((t.0, t.1)) by {
+        lemma_idm_of_keys(all, t.0, t.1);
+    }
+}
+
+/// ... and every literal symbol has an id and, given the level bound, a slot
+proof fn lemma_lits_ready(d: DFA, idm: Map<(Ustr, Ustr), u32>, max: int)
+    requires
+        dfa_wf(d), lits_known(d, idm),
+        forall|x: Inp| #[trigger] on_edge(d, x) && level_of(x) is Some ==> level_of(x)->0 <= max,
+    ensures lits_ready(d, idm, max)
+{
+    lemma_empty_ustr_is_empty();
+    assert forall|q: u32, id: InpId| #[trigger] used(d, q, id) implies 0 <= ix_of(id) < d.inputs@.len() && match d.inputs@[ix_of(id)] {
+        Inp::Literal { literal, description, fallback_level } => fallback_level <= max && (exists|lid: u32| lit_key(idm, literal, description, lid)),
+        _ => true,
+    } by {
+        let x = d.inputs@[ix_of(id)];
+        assert(on_edge(d, x));
+        match x {
+            Inp::Literal { literal, description, fallback_level } => {
+                let t = (literal, descr_or_empty(description), d.transitions@[q][id]);
+                assert(lit_entry(d, q, id, t));
+                assert(lit_key(idm, literal, description, idm[(t.0, t.1)]));
+            }
+            _ => {}
+        }
+    }
+}
+
+proof fn lemma_cmds_ready(d: DFA, cmds: Seq<Ustr>, max: int)
+    requires
+        dfa_wf(d), cmds_all_known(d, cmds),
+        forall|x: Inp| #[trigger] on_edge(d, x) && level_of(x) is Some ==> level_of(x)->0 <= max,
+    ensures cmds_ready(d, cmds, max), compadds_ready(d, cmds, max), cmdts_known(d, cmds), cpdts_known(d, cmds)
+{
+    assert forall|q: u32, id: InpId| #[trigger] used(d, q, id) implies 0 <= ix_of(id) < d.inputs@.len() && (match d.inputs@[ix_of(id)] {
+        Inp::Command { cmd, fallback_level } => fallback_level <= max && has_key(cmds, cmd),
+        _ => true,
+    }) && (match d.inputs@[ix_of(id)] {
+        Inp::Compadd { cmd, fallback_level } => fallback_level <= max && has_key(cmds, cmd),
+        _ => true,
+    }) by {
+        let x = d.inputs@[ix_of(id)];
+        assert(on_edge(d, x));
+        match x {
+            Inp::Command { cmd, fallback_level } => { assert(is_cmd(x, cmd)); }
+            Inp::Compadd { cmd, fallback_level } => { assert(is_cmd(x, cmd)); }
+            _ => {}
+        }
+    }
+    assert forall|q: u32, id: InpId, t: (Ustr, u32)| #[trigger] cmd_entry(d, q, id, t) implies has_key(cmds, t.0) by {
+        let x = d.inputs@[ix_of(id)];
+        assert(on_edge(d, x));
+        assert(is_cmd(x, t.0));
+    }
+    assert forall|q: u32, id: InpId, t: (Ustr, u32)| #[trigger] compadd_entry(d, q, id, t) implies has_key(cmds, t.0) by {
+        let x = d.inputs@[ix_of(id)];
+        assert(on_edge(d, x));
+        assert(is_cmd(x, t.0));
+    }
+}
+
+} // verus!
+verus! {
+
+/// the within-word automaton id labels some transition
+spec fn sub_on_edge(d: DFA, sid: DFAId) -> bool {
+    exists|x: Inp| #[trigger] on_edge(d, x) && x is Subword && x->subdfa == sid
+}
+
+/// ids handed out so far: one per key, all different, from first_id up to (not including) next
+spec fn ids_ok(tab: Map<DFAId, usize>, first_id: usize, next: usize) -> bool {
+    (forall|k: DFAId| #[trigger] tab.contains_key(k) ==> first_id <= tab[k] < next)
+    && (forall|a: DFAId, b: DFAId| tab.contains_key(a) && tab.contains_key(b) && #[trigger] tab[a] == #[trigger] tab[b] ==> a == b)
+}
+
+} // verus!
+verus! {
+
+/// the symbol id, if it is a within-word symbol, has its automaton in the table
+spec fn sub_seen(d: DFA, tab: Map<DFAId, usize>, id: InpId) -> bool {
+    0 <= ix_of(id) < d.inputs@.len() && (d.inputs@[ix_of(id)] is Subword ==> tab.contains_key(d.inputs@[ix_of(id)]->subdfa))
+}
+
+} // verus!
+verus! {
+spec fn r_has(tab: Map<DFAId, usize>, k: DFAId) -> bool { tab.contains_key(k) }
 } // verus!
